@@ -574,8 +574,8 @@ func (nw *c11Net) apply(f []string) string {
 		m := nw.nodes[a].mgr
 		n := m.CleanupStaleRoutes(maxAge) + m.CleanupStaleDomainRoutes(maxAge) + m.CleanupStaleForwardRoutes(maxAge) + m.CleanupStaleAgentRoutes(maxAge)
 		return out(fmt.Sprintf("removed:%d", n), nodeS(a))
-	case "walk":
-		if fn := c11ExtraOps["walk"]; fn != nil {
+	case "walk", "uwalk":
+		if fn := c11ExtraOps[f[0]]; fn != nil {
 			return fn(f)
 		}
 		return "r=bad"
@@ -936,6 +936,13 @@ func c11GenProfile(w *bufio.Writer, seed int64, tier string, prof string) {
 				fmt.Fprintf(w, "walk %d 0 %s\n", mh, strings.Join(p, "-"))
 			}
 		}
+		// UDP_OPEN built by the real ingress code, for routes of 1, 2, 3 (and 5) hops
+		for _, mh := range []int{16, 3} {
+			fmt.Fprintf(w, "uwalk %d 0 1\n", mh)
+			fmt.Fprintf(w, "uwalk %d 0 1-2\n", mh)
+			fmt.Fprintf(w, "uwalk %d 0 1-2-3\n", mh)
+		}
+		fmt.Fprintln(w, "uwalk 16 4 3-0-7-2-9")
 		fmt.Fprintln(w, "walk 16 0 1-2-3-4-5-6-7-8-9-10-11-12-13-14-15-16")
 		fmt.Fprintln(w, "walk 8 3 2-5-0-7-1-4-6")
 		fmt.Fprintln(w, "walk 0 0 4-3-2-1")
